@@ -69,6 +69,31 @@ Theorem C11_client_accepts :
 Proof. exact client_accepts_iff. Qed.
 Print Assumptions C11_client_accepts.
 
+(* Replay: whatever frames a server accepted under its nonce rb, it refuses under
+   any other nonce; likewise the client for its nonce ra.  (That the nonces of two
+   runs differ is a fact about crypto/rand, checked by the freshness oracle.) *)
+Theorem C11_server_accept_binds_nonce :
+  forall (e : env) (now : Z) (rb rb' : bytes) (frames : list mframe) user sk sent user' sk' sent',
+    server_run e now rb frames = {| s_out := Accept user sk; s_sent := sent |} ->
+    server_run e now rb' frames = {| s_out := Accept user' sk'; s_sent := sent' |} ->
+    rb = rb'.
+Proof. exact server_accept_binds_nonce. Qed.
+Print Assumptions C11_server_accept_binds_nonce.
+
+Theorem C11_client_accept_binds_nonce :
+  forall (cr : crypto) (ld : loaded) (ra ra' : bytes) (frames : list mframe) sk sent sk' sent',
+    client_run cr ld ra frames = {| c_out := CAccept sk; c_sent := sent |} ->
+    client_run cr ld ra' frames = {| c_out := CAccept sk'; c_sent := sent' |} ->
+    ra = ra'.
+Proof. exact client_accept_binds_nonce. Qed.
+Print Assumptions C11_client_accept_binds_nonce.
+
+(* reflection: the server's proof can never serve as the client's proof or vice versa *)
+Theorem C11_proofs_not_interchangeable :
+  forall cid sid ra rb rb', mac_T cid sid ra rb <> mac_C cid rb'.
+Proof. exact proofs_not_interchangeable. Qed.
+Print Assumptions C11_proofs_not_interchangeable.
+
 Theorem C11_client_without_token_fails :
   forall (cr : crypto) (ra : bytes) (frames : list mframe),
     c_out (client_run cr None ra frames) = CFail.
